@@ -1281,7 +1281,12 @@ func (in *Interp) reflectCastLoad(fr *frame, c CastPtr, t types.Type) Value {
 		case 1:
 			return in.rvDataPtr(fr, r)
 		case 2:
-			return BV(64, uint64(kindOf(r.t)))
+			// kind bits, plus flagIndir (1<<7) when the ptr word points at the data
+			fl := uint64(kindOf(r.t))
+			if r.ptr != nil || !isDirectIface(r.t) {
+				fl |= rvFlagIndir
+			}
+			return BV(64, fl)
 		}
 	case funcCodeWord:
 		return in.funcCode(p.f)
@@ -1365,8 +1370,76 @@ func (in *Interp) typeToken(t types.Type) Value {
 	return r.cell
 }
 
+const rvFlagIndir = 1 << 7
+
+// isDirectIface: pointer-shaped types, whose value is itself the data word of an interface
+// or reflect.Value (cmd/compile types.IsDirectIface).
+func isDirectIface(t types.Type) bool {
+	if t == nil {
+		return false
+	}
+	switch u := t.Underlying().(type) {
+	case *types.Pointer, *types.Chan, *types.Map, *types.Signature:
+		return true
+	case *types.Basic:
+		return u.Kind() == types.UnsafePointer
+	case *types.Array:
+		return u.Len() == 1 && isDirectIface(u.Elem())
+	case *types.Struct:
+		return u.NumFields() == 1 && isDirectIface(u.Field(0).Type())
+	}
+	return false
+}
+
+// directLeaf: the single pointer word of a pointer-shaped aggregate value.
+func directLeaf(v Value) Value {
+	for {
+		switch x := v.(type) {
+		case *Struct:
+			if len(x.f) != 1 {
+				return v
+			}
+			v = x.f[0]
+		case *ArrObj:
+			if len(x.elems) != 1 {
+				return v
+			}
+			v = x.elems[0]
+		default:
+			return v
+		}
+	}
+}
+
+// directWrap: the pointer-shaped aggregate of type t whose single word is w.
+func (in *Interp) directWrap(w Value, t types.Type) Value {
+	switch u := t.Underlying().(type) {
+	case *types.Struct:
+		return &Struct{f: []Value{in.directWrap(w, u.Field(0).Type())}}
+	case *types.Array:
+		z := zero(t)
+		if a, ok := z.(*ArrObj); ok && len(a.elems) == 1 {
+			a.elems[0] = in.directWrap(w, u.Elem())
+			return a
+		}
+		panic(pathAbort{"unsupported: pointer-shaped array value"})
+	}
+	if c, ok := w.(CastPtr); ok {
+		// the word is re-typed by the type word: drop the cast when it matches the cell
+		return CastPtr{p: c.p, t: t}
+	}
+	return w
+}
+
 // rvDataPtr: the ptr word of a reflect.Value.
 func (in *Interp) rvDataPtr(fr *frame, r *RValue) Value {
+	if r.ptr == nil && isDirectIface(r.t) {
+		switch kindOf(r.t) {
+		case kFunc, kPtr, kMap, kChan, kUnsafePointer:
+		default:
+			return directLeaf(r.v)
+		}
+	}
 	switch kindOf(r.t) {
 	case kFunc, kPtr, kMap, kChan, kUnsafePointer:
 		if r.ptr != nil { // flagIndir
@@ -1430,6 +1503,17 @@ func (in *Interp) rvFromWords(fr *frame, s *Struct) Value {
 	switch kindOf(rt.t) {
 	case kFunc, kPtr, kMap, kChan, kUnsafePointer:
 		return &RValue{t: rt.t, v: s.f[1]}
+	}
+	if isDirectIface(rt.t) {
+		indir := true
+		if ft, ok := s.f[2].(*Term); ok {
+			if k, isC := ft.Const(); isC {
+				indir = k&rvFlagIndir != 0
+			}
+		}
+		if !indir {
+			return &RValue{t: rt.t, v: in.directWrap(s.f[1], rt.t)}
+		}
 	}
 	// indirect kinds: the ptr word points at the data
 	return &RValue{t: rt.t, ptr: s.f[1]}
